@@ -20,6 +20,7 @@ import (
 	"net"
 	"net/http"
 	"strconv"
+	"strings"
 
 	"github.com/caddyserver/certmagic"
 	"github.com/tmpim/casket"
@@ -214,13 +215,24 @@ func redirPlaintextHost(cfg *SiteConfig) *SiteConfig {
 			if err != nil {
 				requestHost = r.Host // Host did not contain a port, so use the whole value
 			}
-			if redirPort == "" {
+			// (an IPv6 literal keeps exactly one pair of brackets, with or without a port)
+			requestHost = strings.TrimSuffix(strings.TrimPrefix(requestHost, "["), "]")
+			if requestHost == "" {
+				requestHost = cfg.Addr.Host // a request without a Host header
+			}
+			if redirPort == "" && strings.Contains(requestHost, ":") {
+				toURL += "[" + requestHost + "]"
+			} else if redirPort == "" {
 				toURL += requestHost
 			} else {
 				toURL += net.JoinHostPort(requestHost, redirPort)
 			}
 
-			toURL += r.URL.RequestURI()
+			if uri := r.URL.RequestURI(); strings.HasPrefix(uri, "/") {
+				toURL += uri
+			} else {
+				toURL += "/" // asterisk-form (OPTIONS *) has no path to keep
+			}
 
 			w.Header().Set("Connection", "close")
 			http.Redirect(w, r, toURL, http.StatusMovedPermanently)
